@@ -76,8 +76,23 @@ def mkseg(label, si):
     return G.seg(objs, newlist=label['newlist'], chunks=label['chunks'])
 
 
-def mkhist(lbls):
-    return [mkseg(l, i) for i, l in enumerate(lbls)]
+def mkhist(lbls, flags=None):
+    h = [mkseg(l, i) for i, l in enumerate(lbls)]
+    if flags:
+        for seg, (il, be) in zip(h, flags):
+            seg['interleaved'] = bool(il)
+            seg['big'] = bool(be)
+    return h
+
+
+def flags_valid(ref, flags):
+    """an interleaved segment is well-formed only if all its data objects are fixed-width and equally long"""
+    for plan, (il, _be) in zip(ref.segments, flags):
+        if il and plan['data_objs']:
+            ns = set(i['n'] for _p, i in plan['data_objs'])
+            if len(ns) > 1 or any(i['t'] == 'String' for _p, i in plan['data_objs']):
+                return False
+    return True
 
 
 def fingerprint(data):
@@ -137,10 +152,12 @@ def features(lbls, ref):
     return f
 
 
-def check_history(lbls, seed, want_key=False, differential=True):
+def check_history(lbls, seed, want_key=False, differential=True, flags=None):
     """Execute one history on the real code.  -> (outcome, violation|None, key|None, forbidden)"""
-    hist = mkhist(lbls)
+    hist = mkhist(lbls, flags)
     ref = G.interpret(hist, seed=seed, lenient=True)
+    if flags and not flags_valid(ref, flags):
+        return 'skipped-malformed-interleaving', None, None, True, ref
     data, _i, _layout, ref = G.encode(hist, seed=seed, ref=ref)
     forb = ref.forbidden
     oe = H.observe(data, lazy=False)
@@ -183,9 +200,9 @@ def check_history(lbls, seed, want_key=False, differential=True):
     v = None
     if viol is not None:
         last2 = [_label_kind(l) for l in lbls[-2:]]
-        v = {'case': {'labels': lbls, 'seed': seed}, 'expected': 'reads as reference interpretation' if not forb
+        v = {'case': {'labels': lbls, 'seed': seed, 'flags': flags}, 'expected': 'reads as reference interpretation' if not forb
              else 'error (forbidden: %s)' % forb[0][0], 'observed': viol[0],
-             'signature': {'kind': viol[2], 'mode': viol[1], 'last_labels': last2}}
+             'signature': {'kind': viol[2], 'mode': viol[1], 'last_labels': last2, 'flags': flags}}
     key = None
     if want_key and not forb:
         fp = fingerprint(data)
@@ -231,6 +248,29 @@ def _tree_worker(item):
             rec(lbls + [l])
 
     rec(list(prefix))
+    return res
+
+
+def _variant_worker(item):
+    """every depth-2 history over the structural alphabet under every (interleaved, big-endian) assignment per segment"""
+    l1, aname, seed = item
+    alpha = _alphabet(aname)
+    res = {'counters': {'histories': 0, 'nontrivial': 0}, 'outcomes': {}, 'violations': [], 'samples': []}
+    import itertools as it
+    for l2 in alpha:
+        lbls = [l1, l2]
+        for f in it.product((0, 1), repeat=4):
+            if not any(f):
+                continue
+            flags = [(f[0], f[2]), (f[1], f[3])]
+            outcome, v, _k, _forb, _ref = check_history(lbls, seed, differential=False, flags=flags)
+            if outcome == 'skipped-malformed-interleaving':
+                continue
+            res['counters']['histories'] += 1
+            res['counters']['nontrivial'] += 1
+            res['outcomes'][outcome] = res['outcomes'].get(outcome, 0) + 1
+            if v is not None and len(res['violations']) < 20:
+                res['violations'].append(v)
     return res
 
 
@@ -288,6 +328,11 @@ def run(ctx):
         cov['full_tree'].append({'alphabet': aname, 'labels': len(alpha), 'depth': depth,
                                  'histories': m['counters'].get('histories', 0)})
         results.append(m)
+    # (i') layout / byte-order variants of every depth-2 structural history
+    mv = merge(ctx.map(_variant_worker, [(l1, 'A2s', seed) for l1 in _alphabet('A2s')], chunksize=2))
+    cov['full_tree'].append({'alphabet': 'A2s x (interleaved, big-endian) per segment', 'labels': len(_alphabet('A2s')), 'depth': 2,
+                             'histories': mv['counters'].get('histories', 0)})
+    results.append(mv)
     tree = merge([{'counters': r['counters'], 'outcomes': r['outcomes'], 'violations': r['violations'],
                    'samples': r['samples']} for r in results])
     # (ii) BFS to fixpoint
@@ -350,7 +395,8 @@ def run(ctx):
 
 
 def replay(case):
-    outcome, v, _k, forb, _ref = check_history(case['labels'], case.get('seed', 0))
+    fl = case.get('flags')
+    outcome, v, _k, forb, _ref = check_history(case['labels'], case.get('seed', 0), flags=[tuple(x) for x in fl] if fl else None)
     if v is None:
         return False, 'reads as reference / rejected as required', outcome
     return True, v['expected'], v['observed']
